@@ -1,9 +1,39 @@
 import Driver.Loop
+import Midgard.Model.TimeScale
+import Midgard.Generated.TimeScaleTables
 
-/-! Driver for C01: placeholder until the model is written. -/
+/-! Driver for C01: the time-scale model instantiated at the regenerated tables. -/
 namespace Driver.C01
+open Midgard.Proto Midgard.TimeArith Midgard.TimeScale
+open Midgard.Generated.TimeScale (taiutc consts hops)
+
+def parseScale? : String → Option Scale
+  | "utc" => some .utc | "tai" => some .tai | "gps" => some .gps
+  | "tt" => some .tt | "tcg" => some .tcg | _ => none
+
+def showScale : Scale → String
+  | .utc => "utc" | .tai => "tai" | .gps => "gps" | .tt => "tt" | .tcg => "tcg"
+
+def showJD (j : JD) : String := s!"{showRat j.jd1} {showRat j.jd2}"
 
 def handle : List String → Option String
+  | ["c01", "convert", a, b, j1, j2] => do
+    let a ← parseScale? a; let b ← parseScale? b
+    let j1 ← parseRat? j1; let j2 ← parseRat? j2
+    match convert taiutc consts hops a b ⟨j1, j2⟩ with
+    | some j => pure (showJD j)
+    | none => pure "none"
+  | ["c01", "route", a, b] => do
+    let a ← parseScale? a; let b ← parseScale? b
+    match route hops a b with
+    | some r => pure (showList (fun h : Hop => s!"{showScale h.1}>{showScale h.2}") r)
+    | none => pure "none"
+  | ["c01", "row", s, j1, j2] => do
+    -- index of the table row the lookup selects (s = utc | tai)
+    let j1 ← parseRat? j1; let j2 ← parseRat? j2
+    if s = "utc" then pure (toString (startedUtc taiutc consts.tol ⟨j1, j2⟩ - 1))
+    else if s = "tai" then pure (toString (startedTai taiutc consts.tol ⟨j1, j2⟩ - 1))
+    else none
   | _ => none
 
 end Driver.C01
